@@ -176,6 +176,9 @@ func genSched(tier string, seed uint64) {
 					c = append(c, 1)
 				}
 				emit("sched %s %s %s 0", d.format, d.hex, schedStr(c))
+				// the same through an already buffered reader handed to the decoder
+				emit("schedb %s %s %s 0", d.format, d.hex, schedStr(c))
+				emit("schedk %s %s %s 0", d.format, d.hex, schedStr(c))
 			}
 		}
 	}
@@ -191,7 +194,7 @@ func genSched(tier string, seed uint64) {
 			if r.chance(1, 5) && len(item) > 1 {
 				item = item[:r.intn(len(item))]
 			}
-			emit("sched cbor %s %s %d", hexOrDash(item), schedStr(randSched(r, len(item))), r.intn(2))
+			emit("%s cbor %s %s %d", []string{"sched", "sched", "schedb", "schedk"}[r.intn(4)], hexOrDash(item), schedStr(randSched(r, len(item))), r.intn(2))
 		} else {
 			var sb strings.Builder
 			randJSON(r, r.intn(4), &sb)
@@ -199,7 +202,7 @@ func genSched(tier string, seed uint64) {
 			if r.chance(1, 5) && len(doc) > 1 {
 				doc = doc[:r.intn(len(doc))]
 			}
-			emit("sched json %s %s %d", hexOrDash(doc), schedStr(randSched(r, len(doc))), r.intn(2))
+			emit("%s json %s %s %d", []string{"sched", "sched", "schedb", "schedk"}[r.intn(4)], hexOrDash(doc), schedStr(randSched(r, len(doc))), r.intn(2))
 		}
 	}
 }
